@@ -67,13 +67,15 @@ TENSOR_OPS = {
     "heaviside": ["values"], "maximum": ["other"], "minimum": ["other"], "fmod": ["other"], "remainder": ["other"], "floor": [], "ceil": [], "round": [],
     "sign": [], "permute": ["dims"], "movedim": ["source", "destination"], "flatten": ["start_dim", "end_dim"], "masked_fill": ["mask", "value"],
     "index_select": ["dim", "index"], "any": ["dim", "keepdim"], "all": ["dim", "keepdim"], "isnan": [], "isinf": [], "numel": [],
+    "bincount": ["weights", "minlength"], "argmax": ["dim", "keepdim"], "argmin": ["dim", "keepdim"], "prod": ["dim", "keepdim"],
+    "std": ["dim", "correction", "keepdim"], "var": ["dim", "correction", "keepdim"], "repeat_interleave": ["repeats", "dim"],
 }
 
 
 # torch functions without a method form: positional parameters, so that `torch.cat(xs, dim=0)` and `torch.cat(xs, 0)` are one call
 FUNC_SIGS = {"cat": ["tensors", "dim"], "stack": ["tensors", "dim"], "where": ["condition", "input", "other"], "arange": ["start", "end", "step"],
              "full": ["size", "fill_value"], "linspace": ["start", "end", "steps"], "pad": ["input", "pad", "mode", "value"],
-             "linear": ["input", "weight", "bias"], "conv2d": ["input", "weight", "bias", "stride", "padding", "dilation", "groups"]}
+             "normalize": ["input", "p", "dim", "eps"], "linear": ["input", "weight", "bias"], "conv2d": ["input", "weight", "bias", "stride", "padding", "dilation", "groups"]}
 
 
 # functions of their arguments only (no hidden state): the same call before and after an effect is the same value
@@ -92,7 +94,7 @@ class Builder:
 
     def __init__(self, prog: Program | None, func: Func | None, env=None, facts=None, *,
                  positive=DEFAULT_POSITIVE, erase_casts=True, inline_depth=3, self_prefix="self",
-                 inline_filter=None, erase_layout=False, erase_validation=False, keep_raises=False, track_locals=False, track_effects=False, summarise_loops=False, erase_persistence=False, inline_new=0, bind_args=False):
+                 inline_filter=None, erase_layout=False, erase_validation=False, keep_raises=False, track_locals=False, track_effects=False, summarise_loops=False, erase_persistence=False, inline_new=0, bind_args=False, inline_delegation=0):
         self.prog, self.func = prog, func
         self.env = dict(env or {})
         self.facts = facts or Facts()
@@ -103,6 +105,7 @@ class Builder:
         self.erase_layout = erase_layout
         self.erase_validation = erase_validation   # argtest.<check>(name, value, ...) -> value (validators return their value)
         self.keep_raises = keep_raises     # a `raise X(...)` is the value raise(X) (a leaf of the decision tree), not bottom
+        self.inline_delegation = inline_delegation   # depth to which `Base.method(self, ...)` / `super().method(...)` statement calls are executed in place
         self.bind_args = bind_args       # calls of repo callees are read with every argument bound to its parameter name (constant defaults filled in)
         self.inline_new = inline_new     # depth to which helpers that the reference tree does not have are inlined (value and effects)
         self.erase_persistence = erase_persistence  # whether a value is stored as a persisted extra / buffer or as a plain attribute is not compared
@@ -118,7 +121,7 @@ class Builder:
                     positive=self.positive, erase_casts=self.erase_casts, inline_depth=self.inline_depth,
                     inline_filter=self.inline_filter, erase_layout=self.erase_layout, erase_validation=self.erase_validation,
                     keep_raises=self.keep_raises, track_locals=self.track_locals, track_effects=self.track_effects,
-                    summarise_loops=self.summarise_loops, erase_persistence=self.erase_persistence, inline_new=self.inline_new, bind_args=self.bind_args)
+                    summarise_loops=self.summarise_loops, erase_persistence=self.erase_persistence, inline_new=self.inline_new, bind_args=self.bind_args, inline_delegation=self.inline_delegation)
         b.module_names = getattr(self, "module_names", set())
         b._epoch = self._epoch
         b.stores = dict(self.stores)
@@ -153,6 +156,19 @@ class Builder:
                 return self.env[d]
             if d in self.stores:
                 return self.stores[d]
+            if self.track_effects and d.startswith("self.") and d.count(".") == 1 and self.prog is not None and self.func is not None and self.func.cls is not None:
+                # a property whose getter only returns a field (`return self.rates_`) reads that field: after `self.rates_ = v`,
+                # `self.rates` is v
+                g = self.func.cls.find_prop(d.split(".")[1], "get")
+                if g is not None:
+                    body = strip_doc(g.node.body)
+                    if len(body) == 1 and isinstance(body[0], ast.Return) and body[0].value is not None:
+                        fd = dotted(body[0].value)
+                        if fd is not None and fd.startswith("self.") and fd != d:
+                            if fd in self.env:
+                                return self.env[fd]
+                            if fd in self.stores:
+                                return self.stores[fd]
             # module constants
             if d in ("math.pi", "torch.pi"):
                 return sym("pi")
@@ -308,6 +324,32 @@ class Builder:
     def e_JoinedStr(self, e):
         return app("const", "fstring")
 
+    # comprehensions: element expression over a symbolic element of each iterable, so that the names they use are the caller's
+    # values (renamed or hoisted locals do not change the term)
+    def _comp(self, kind, e, elts):
+        sub = self.child(dict(self.env))
+        heads = []
+        for g in e.generators:
+            it = sub.t(g.iter)
+            it = it if isinstance(it, Rat) else (app("tuple", *it) if isinstance(it, tuple) else app("const", str(it)))
+            sub.assign(g.target, app("element", it))
+            conds = tuple(sub.t(c) for c in g.ifs)
+            heads.append((it, conds))
+        vals = tuple(sub.t(x) for x in elts)
+        return app("comp", kind, vals, tuple(heads))
+
+    def e_ListComp(self, e):
+        return self._comp("list", e, [e.elt])
+
+    def e_SetComp(self, e):
+        return self._comp("set", e, [e.elt])
+
+    def e_GeneratorExp(self, e):
+        return self._comp("gen", e, [e.elt])
+
+    def e_DictComp(self, e):
+        return self._comp("dict", e, [e.key, e.value])
+
     def e_Starred(self, e):
         v = e.value
         # `*tuple(xs)` / `*list(xs)` unpack the same elements as `*xs`
@@ -352,6 +394,24 @@ class Builder:
             return args[1]
         if self.bind_args and not star and self.prog is not None and self.func is not None:
             r_ = self.prog.resolve_call(self.func, e)
+            if r_ is None and isinstance(f, ast.Attribute) and recv is not None:
+                # receiver of unknown type (`self.data_.reset(...)`, `getattr(self, n).reconstrain(...)`): if every method of that name
+                # in the repository has the same parameters, the call binds the same way whichever it is
+                idx = getattr(self.prog, "_methods_by_name", None)
+                if idx is None:
+                    idx = {}
+                    for fn_ in self.prog.funcs:
+                        if fn_.cls is not None and fn_.kind in ("method", "class"):
+                            idx.setdefault(fn_.name, []).append(fn_)
+                    self.prog._methods_by_name = idx
+                cands = idx.get(f.attr, [])
+
+                def sig(fn_):
+                    a_ = fn_.node.args
+                    return (tuple(x.arg for x in (a_.posonlyargs + a_.args)[1:]), tuple(x.arg for x in a_.kwonlyargs), bool(a_.vararg),
+                            tuple(ast.unparse(d) for d in a_.defaults), tuple(ast.unparse(d) if d is not None else "" for d in a_.kw_defaults))
+                if cands and len({sig(c_) for c_ in cands}) == 1 and not cands[0].node.args.vararg:
+                    r_ = (cands[0], True)
             if r_ is not None and r_[0].kind not in ("getter", "setter", "deleter"):
                 cal, bnd = r_
                 ca = cal.node.args
@@ -413,6 +473,37 @@ class Builder:
             c, a, b = at.args
             return mk_ite(c, self._apply_value(a, args, kws), self._apply_value(b, args, kws))
         if at is not None and at.op == "sym":
+            name = at.args[0]
+            root = name.split(".")[0]
+            is_mod = root in MODULE_BASES or root in getattr(self, "module_names", ())
+            if not is_mod and "." in name and self.prog is not None and self.func is not None and root not in self.env:
+                r0 = self.prog.resolve(self.func.module.name, root)
+                is_mod = bool(r0) and r0[0] in ("module", "ext")
+            if "." in name and is_mod:
+                # a module function held in a variable (`fn = nf.f if c else nf.g; fn(x)`) is that function called directly
+                fake = ast.Call(func=ast.parse(name, mode="eval").body, args=[], keywords=[])
+                last = name.split(".")[-1]
+                if self.bind_args and self.prog is not None and self.func is not None:
+                    cal = None
+                    try:
+                        r_ = self.prog.resolve_call(self.func, fake)
+                        cal = r_[0] if r_ else None
+                    except Exception:
+                        cal = None
+                    if cal is not None and not cal.node.args.vararg:
+                        pn = [x.arg for x in cal.node.args.posonlyargs + cal.node.args.args]
+                        args, kws = list(args), dict(kws)
+                        if len(args) <= len(pn) and not (set(pn[:len(args)]) & set(kws)):
+                            for nm, v in zip(pn, args):
+                                kws[nm] = v
+                            args = []
+                            ca = cal.node.args
+                            dflt = dict(zip(pn[len(pn) - len(ca.defaults):], ca.defaults)) if ca.defaults else {}
+                            dflt.update({x.arg: d for x, d in zip(ca.kwonlyargs, ca.kw_defaults) if d is not None})
+                            for nm, d in dflt.items():
+                                if nm not in kws and isinstance(d, ast.Constant):
+                                    kws[nm] = self.t(d)
+                return self._builtin(last, False, list(args), kws, fake)
             return self._builtin(at.args[0], False, list(args), kws, None)
         kwt = tuple((k, v) for k, v in sorted(kws.items()))
         return app("call", fv, *args, ("kw",) + kwt) if kwt else app("call", fv, *args)
@@ -424,9 +515,17 @@ class Builder:
         env = {}
         pos = list(args)
         if callee.cls is not None and callee.kind != "static" and bound:
-            env[names[0]] = recv if recv is not None else sym("self")
+            rv = recv if recv is not None else sym("self")
+            if not (isinstance(rv, Rat) and rv.eq(sym(names[0]))):
+                env[names[0]] = rv      # (a receiver that is just `self` stays unbound: its attributes read as in the caller)
             names = names[1:]
-        if len(pos) > len(names) or a.vararg or a.kwarg:
+        if len(pos) > len(names) or a.vararg:
+            return None
+        kws = dict(kws)
+        starkw = kws.pop("__starkw__", None)
+        if a.kwarg:
+            env[a.kwarg.arg] = starkw if starkw is not None else app("dict")
+        elif starkw is not None:
             return None
         for n, v in zip(names, pos):
             env[n] = v
@@ -762,6 +861,27 @@ class Builder:
                     if d is not None:
                         self.env[d] = app("inplace", c.func.attr, self.t(c.func.value), *[self.t(a) for a in c.args])
                 self.effects.append(("call", c))
+                if self.inline_delegation > 0 and self.prog is not None and self.func is not None and isinstance(c.func, ast.Attribute) \
+                        and not any(isinstance(x, ast.Starred) for x in c.args) and sum(1 for k in c.keywords if k.arg is None) <= 1:
+                    # delegation to the same method of a base class: `Base.clear(self, ...)` / `super().clear(...)`
+                    is_super = isinstance(c.func.value, ast.Call) and dotted(c.func.value.func) == "super"
+                    is_base = isinstance(c.func.value, ast.Name) and c.func.value.id in self.prog.classes and c.args and dotted(c.args[0]) == "self"
+                    r_ = self.prog.resolve_call(self.func, c) if (is_super or is_base) else None
+                    if r_ is not None and r_[0].cls is not None and r_[0] is not self.func:
+                        before = dict(self.stores)
+                        saved = self.inline_delegation
+                        try:
+                            self.inline_delegation = saved - 1
+                            args_ = [self.t(a) for a in (c.args[1:] if is_base else c.args)]
+                            kws_ = {(k.arg if k.arg is not None else "__starkw__"): self.t(k.value) for k in c.keywords}
+                            res_ = self._inline_new(r_[0], True, sym("self"), args_, kws_)
+                            if res_ is not None:
+                                return
+                            self.stores = before
+                        except Opaque:
+                            self.stores = before
+                        finally:
+                            self.inline_delegation = saved
                 if self.inline_new > 0 and self.prog is not None and self.func is not None:
                     r_ = self.prog.resolve_call(self.func, c)
                     if r_ is not None and _is_new(r_[0]) and not any(isinstance(x, ast.Starred) for x in c.args):
@@ -872,6 +992,10 @@ class Builder:
                     self.assign(t_, app("index", v, C(i)))
         elif isinstance(tgt, ast.Attribute):
             d = dotted(tgt)
+            root = d.split(".")[0] if d is not None else None
+            if d is not None and self.track_effects and root in self.env and isinstance(self.env[root], Rat) \
+                    and self.env[root].as_atom() is not None and self.env[root].as_atom().op not in ("sym", "element"):
+                d = None        # `r = getattr(self, a); r.dt = v` stores through the object r stands for, like `getattr(self, a).dt = v`
             if d is not None:
                 self.stores[d] = v
                 self.env[d] = v
